@@ -413,6 +413,81 @@ def walk_function(fi):
     return be
 
 
+NODE_SEQUENCES = ('self.maximal_cliques()', 'self.tree.nodes()', 'self.tree.nodes', 'list(self.tree.nodes())', 'list(self.tree.nodes)', 'list(self.tree)',
+                  'sorted(self.tree.nodes())', 'sorted(self.tree.nodes)', 'sorted(self.tree)')
+
+
+def unlabelled(fi):
+    """the cliques NUMBERED for the duration of the function:  index = {cl: k for k, cl in enumerate(S)} ... [(S[i], S[j]) for i, j in R].
+    Numbering by position in a duplicate-free sequence S and decoding through the same S is a bijective relabelling of the nodes, under
+    which the dependency graph and its topological orders correspond one to one; the function is judged with the labels removed.  Returns
+    (statements, mismatch): mismatch = (encoded over, decoded over) when the two sequences are different enumerations of the cliques."""
+    from ..srcmodel import clone
+    from ..engines.blockeval import T
+    body = clone(fi.body)
+    root = ast.Module(body=body, type_ignores=[])
+    assigns = {}
+    for st in ast.walk(root):
+        if isinstance(st, ast.Assign) and len(st.targets) == 1 and isinstance(st.targets[0], ast.Name):
+            assigns.setdefault(st.targets[0].id, []).append(st)
+
+    def resolve(e):
+        while isinstance(e, ast.Name) and len(assigns.get(e.id, ())) == 1:
+            e = assigns[e.id][0].value
+        return e
+    tables = []
+    for nm, sts in assigns.items():
+        v = sts[0].value
+        if len(sts) == 1 and isinstance(v, ast.DictComp) and len(v.generators) == 1 and not v.generators[0].ifs:
+            g = v.generators[0]
+            if isinstance(g.iter, ast.Call) and U(g.iter.func) == 'enumerate' and len(g.iter.args) == 1 and isinstance(g.target, ast.Tuple) and \
+                    len(g.target.elts) == 2 and all(isinstance(x, ast.Name) for x in g.target.elts) and \
+                    isinstance(v.key, ast.Name) and isinstance(v.value, ast.Name) and (v.value.id, v.key.id) == tuple(x.id for x in g.target.elts):
+                tables.append((nm, sts[0], g.iter.args[0]))
+    if len(tables) != 1:
+        return None
+    nm, st_tbl, src = tables[0]
+    loads = [n for n in ast.walk(root) if isinstance(n, ast.Name) and n.id == nm and isinstance(n.ctx, ast.Load)]
+    subs = [n for n in ast.walk(root) if isinstance(n, ast.Subscript) and isinstance(n.value, ast.Name) and n.value.id == nm and isinstance(n.ctx, ast.Load)]
+    if len(loads) != len(subs) or not subs:
+        return None
+    decs = []
+    for n in ast.walk(root):
+        if isinstance(n, ast.ListComp) and len(n.generators) == 1 and not n.generators[0].ifs and isinstance(n.elt, ast.Tuple) and len(n.elt.elts) == 2 \
+                and isinstance(n.generators[0].target, ast.Tuple) and len(n.generators[0].target.elts) == 2:
+            tg = [U(x) for x in n.generators[0].target.elts]
+            if all(isinstance(x, ast.Subscript) for x in n.elt.elts) and [U(x.slice) for x in n.elt.elts] == tg and len({U(x.value) for x in n.elt.elts}) == 1 and U(n.elt.elts[0].value) != nm:
+                decs.append(n)
+    if len(decs) != 1:
+        raise AnalysisError('mp_order: cliques numbered through `%s` but the schedule is not decoded by one `[(S[i], S[j]) for i, j in ..]`' % nm)
+    dec = decs[0]
+    enc_t, dec_t = T(resolve(src)), T(resolve(dec.elt.elts[0].value))
+    for t_ in (enc_t, dec_t):
+        if t_ not in NODE_SEQUENCES:
+            raise AnalysisError('mp_order: cliques numbered by position in `%s`, which is no recognised enumeration of the tree nodes' % t_)
+
+    class Strip(ast.NodeTransformer):
+        def visit_Subscript(self, n):
+            self.generic_visit(n)
+            if isinstance(n.value, ast.Name) and n.value.id == nm and isinstance(n.ctx, ast.Load):
+                return n.slice
+            return n
+
+        def visit_ListComp(self, n):
+            if n is dec:
+                return ast.Call(func=ast.Name(id='list', ctx=ast.Load()), args=[n.generators[0].iter], keywords=[])
+            self.generic_visit(n)
+            return n
+
+        def visit_Assign(self, n):
+            if n is st_tbl:
+                return None
+            self.generic_visit(n)
+            return n
+    root = ast.fix_missing_locations(Strip().visit(root))
+    return root.body, (None if enc_t == dec_t else (enc_t, dec_t)), st_tbl
+
+
 def check_schedule(ctx):
     """stated on set-builder terms (engines/builders.py): comprehension and loop-nest spellings, locals and extracted helpers
     denote the same collections"""
@@ -420,7 +495,18 @@ def check_schedule(ctx):
     from ..engines.blockeval import T
     fi = ctx.repo.nfunc(JT, 'JunctionTree.mp_order')
     ctx.analysed(fi)
-    be = walk_function(fi)
+    un = unlabelled(fi)
+    if un is not None:
+        stmts_, mismatch, where_ = un
+        ctx.ob('schedule', fi, where_, mismatch is None,
+               'cliques numbered for the dependency graph must be decoded through the SAME enumeration they were numbered by (a bijective '
+               'relabelling); here they are %s' % ('numbered and decoded by position in one sequence' if mismatch is None else
+                                                  'numbered by position in `%s` but decoded by position in `%s`: every message names other cliques' % mismatch),
+               construct='clique numbering of the schedule')
+        import types
+        be = walk_function(types.SimpleNamespace(body=stmts_, qualname=fi.qualname))
+    else:
+        be = walk_function(fi)
     # the dependency graph: the object that is topologically sorted
     R = be.env.get('__ret__')
     R0 = strip_wrappers(R) if R is not None else None
@@ -513,6 +599,7 @@ def check_schedule(ctx):
     if isinstance(M, ast.BinOp) and isinstance(M.op, ast.Add):
         b1, b2 = Builder.of_comprehension(M.left), Builder.of_comprehension(M.right)
         if b1 is not None and b2 is not None:
+            b1, b2 = b1.composed(), b2.composed()
             c1, c2 = b1.canon(), b2.canon()
             E = ('self.tree.edges()', 'self.tree.edges')
             fwd, bwd = '(_g0_0,_g0_1)', '(_g0_1,_g0_0)'
